@@ -560,3 +560,82 @@ def restart(vc):
 from pyvc.harness import share as _share  # noqa: E402
 from contracts import C10 as _C10  # noqa: E402,F401
 _share("C10", "truth_job", "C01")
+
+
+TAE = "resonaate.data.events.target_addition:"
+SAE = "resonaate.data.events.sensor_addition:"
+ARE = "resonaate.data.events.agent_removal:"
+EBS = "resonaate.tasking.engine.engine_base:"
+
+
+@obligation("C01", "add_remove", ensures=["O-C01-addremove.handlers", "O-C01-addremove.scenario-remove", "O-C01-addremove.engine-lists"],
+            fns=[TAE + "TargetAdditionEvent.handleEvent", SAE + "SensorAdditionEvent.handleEvent", ARE + "AgentRemovalEvent.handleEvent", SC + "Scenario.removeTarget", SC + "Scenario.removeSensor",
+                 EBS + "TaskingEngine.addTarget", EBS + "TaskingEngine.removeTarget", EBS + "TaskingEngine.addSensor", EBS + "TaskingEngine.removeSensor"], mode="Z",
+            note="an addition / removal event handed to the scenario takes effect once: the target-addition handler calls addTarget exactly once with the event's id, name, state and engine id, the sensor-addition handler "
+                 "addSensor once with the event's sensor fields (radar fields for radars, limiting magnitude for optical sensors), the removal handler removeTarget or removeSensor once according to the agent type; removing "
+                 "a target deletes exactly that target, its estimate and its entry in the named engine, removing a sensor exactly that sensor - every other agent stays; the engines' id lists gain / lose exactly that id")
+def add_remove(vc):
+    from resonaate.common.labels import SensorLabel
+    calls = []
+    scn = _NS(addTarget=lambda spec, eng: calls.append(("addTarget", spec, eng)), addSensor=lambda spec, eng: calls.append(("addSensor", spec, eng)),
+              removeTarget=lambda aid, eng: calls.append(("removeTarget", aid, eng)), removeSensor=lambda aid, eng: calls.append(("removeSensor", aid, eng)))
+    new = lambda spec, **kw: _event_obj(vc, spec, **kw)
+    aid, eid = vc.int("agent_id", 1, 10 ** 5), vc.int("engine_id", 0, 50)
+    state = [7000.0, 1.0, 2.0, 0.1, 7.5, 0.2]
+    pv = dict(pos_x_km=state[0], pos_y_km=state[1], pos_z_km=state[2], vel_x_km_p_sec=state[3], vel_y_km_p_sec=state[4], vel_z_km_p_sec=state[5])
+    tev = new(TAE + "TargetAdditionEvent", agent_id=aid, agent=_NS(name="tgt"), station_keeping_json='["LEO"]', tasking_engine_id=eid, **pv)
+    tev.handleEvent(scn)
+    ok = len(calls) == 1 and calls[0][0] == "addTarget" and calls[0][2] is eid and calls[0][1]["id"] is aid and calls[0][1]["name"] == "tgt" \
+        and list(calls[0][1]["state"]["position"]) == state[:3] and list(calls[0][1]["state"]["velocity"]) == state[3:] and calls[0][1]["state"]["type"] == "eci" \
+        and calls[0][1]["platform"] == {"type": "spacecraft", "station_keeping": ["LEO"]}
+    cols = dict(agent_id=aid, agent=_NS(name="sen"), platform="ground_facility", station_keeping_json="[]", azimuth_min=10.0, azimuth_max=350.0, elevation_min=1.0, elevation_max=89.0,
+                covariance_json="[[1.0, 0.0], [0.0, 2.0]]", aperture_diameter=3.0, efficiency=0.9, slew_rate=2.0, fov_shape="rectangular", fov_angle_1=8.0, fov_angle_2=2.0, minimum_range=10.0,
+                maximum_range=5e4, background_observations=True, tx_power=1e6, tx_frequency=1e9, min_detectable_power=1e-15, detectable_vismag=20.0, tasking_engine_id=eid, **pv)
+    want = dict(azimuth_range=[10.0, 350.0], elevation_range=[1.0, 89.0], covariance=[[1.0, 0.0], [0.0, 2.0]], aperture_diameter=3.0, efficiency=0.9, slew_rate=2.0,
+                field_of_view={"fov_shape": "rectangular", "azimuth_angle": 8.0, "elevation_angle": 2.0}, minimum_range=10.0, maximum_range=5e4, background_observations=True)
+    for kind in (SensorLabel.RADAR, SensorLabel.OPTICAL):
+        del calls[:]
+        new(SAE + "SensorAdditionEvent", sensor_type=kind, **cols).handleEvent(scn)
+        spec = calls[0][1] if calls else {}
+        s_ = spec.get("sensor", {})
+        ok = ok and len(calls) == 1 and calls[0][0] == "addSensor" and calls[0][2] is eid and spec["id"] is aid and spec["name"] == "sen" and spec["platform"] == {"type": "ground_facility", "station_keeping": []} \
+            and list(spec["state"]["position"]) == state[:3] and list(spec["state"]["velocity"]) == state[3:] and spec["state"]["type"] == "eci" \
+            and all(s_.get(k) == v for k, v in want.items()) and s_.get("type") == kind \
+            and (("tx_power" in s_ and s_["tx_power"] == 1e6 and s_["tx_frequency"] == 1e9 and s_["min_detectable_power"] == 1e-15 and "detectable_vismag" not in s_) if kind == SensorLabel.RADAR
+                 else (s_.get("detectable_vismag") == 20.0 and "tx_power" not in s_))
+    for typ, name in (("target", "removeTarget"), ("sensor", "removeSensor")):
+        del calls[:]
+        rm = new(ARE + "AgentRemovalEvent", agent_id=aid, tasking_engine_id=eid, agent_type=typ)
+        rm.handleEvent(scn)
+        ok = ok and calls == [(name, aid, eid)]
+    vc.ensure("O-C01-addremove.handlers", ok)
+    # the scenario's removal bodies
+    eng_calls = []
+    mk_eng = lambda k: _NS(removeTarget=lambda i: eng_calls.append((k, "removeTarget", i)), removeSensor=lambda i: eng_calls.append((k, "removeSensor", i)))
+    s = vc.new(SC + "Scenario", target_agents={1: "T1", 2: "T2", 3: "T3"}, _estimate_agents={1: "E1", 2: "E2", 3: "E3"}, _sensor_agents={10: "S10", 11: "S11"}, _tasking_engines={5: mk_eng(5), 6: mk_eng(6)})
+    s.removeTarget(2, 6)
+    s.removeSensor(10, 5)
+    vc.ensure("O-C01-addremove.scenario-remove", s.target_agents == {1: "T1", 3: "T3"} and s._estimate_agents == {1: "E1", 3: "E3"} and s._sensor_agents == {11: "S11"}
+              and eng_calls == [(6, "removeTarget", 2), (5, "removeSensor", 10)])
+    e = vc.new(CEN + "CentralizedTaskingEngine", target_list=[3, 9], sensor_list=[20, 40])
+    e.addTarget(5); e.addSensor(30); e.removeTarget(3); e.removeSensor(40)
+    vc.ensure("O-C01-addremove.engine-lists", sorted(e.target_list) == [5, 9] and sorted(e.sensor_list) == [20, 30] and list(e.target_list) == sorted(e.target_list) and list(e.sensor_list) == sorted(e.sensor_list))
+
+
+def _event_obj(vc, spec, **cols):
+    """an event row with the given column values: symbolically the flat class of the real event class; natively a plain class carrying the real class's properties
+    and handler (instances of the ORM class itself need a configured mapper)"""
+    if vc.symbolic:
+        return vc.new(spec, **cols)
+    import importlib
+    mod, qual = spec.split(":")
+    C = getattr(importlib.import_module(mod), qual)
+    ns = {}
+    for klass in reversed(C.__mro__):
+        if klass.__module__.startswith("resonaate"):
+            for k, v in vars(klass).items():
+                if isinstance(v, property) or k in ("handleEvent", "AgentType"):
+                    ns[k] = v
+    o = type(C.__name__ + "Row", (), ns)()
+    o.__dict__.update(cols)
+    return o
